@@ -3,6 +3,7 @@
 \* take effect and return
 SPECIFICATION MCSpec
 CONSTANTS
+  FlushWraps = {"flush"}
   Threads = {t1, t2}
   CallsPerThread = 1
   MaxCommitOps = 2
